@@ -243,7 +243,7 @@ func init() {
 		},
 		Components: map[string]string{
 			"internal/http (handlers, route patterns) + gorilla/mux router": "real (handlers invoked through the router, not through a socket; the real http.Server is exercised in C14)",
-			"client/http.Witness":                     "real, over the simnet RoundTripper",
+			"client/http.Witness": "real, over the simnet RoundTripper",
 			"internal/witness + both persistence implementations": "real",
 			"network": "simnet (drop, status substitution, truncation, stall)",
 		},
